@@ -82,9 +82,17 @@ def exec_case(case):
                     e["inside"] = [1 if any(_on_segment(p, P[a], P[b]) for a, b in ev["E0"]) else 0 for p in pts]
                 elif kind == "surface":
                     m = c09.build({"kind": "surface", "P": ev["P"], "F": ev["F"]})
+                    Pnow = ev["P"]
+                    if ev.get("moved", 0):
+                        # history: face normals are stored on the mesh, then the mesh is turned by a quarter turn: the samples' normals are those of the mesh as it is now
+                        import mouette as M
+                        M.attributes.face_normals(m)
+                        Pnow = [[p[0], -p[2], p[1]] for p in ev["P"]]
+                        for i, p in enumerate(Pnow):
+                            m.vertices[i] = M.geometry.Vec(float(p[0]), float(p[1]), float(p[2]))
                     r = S.sample_surface(m, ev["n"], return_point_cloud=False, return_normals=bool(ev.get("normals", 0)))
                     pts, nrm = (r if ev.get("normals", 0) else (r, None))
-                    P = [np.array(p, dtype=float) for p in ev["P"]]
+                    P = [np.array(p, dtype=float) for p in Pnow]
                     e["count"] = int(len(pts))
                     flags = []
                     for i, p in enumerate(pts):
@@ -157,11 +165,13 @@ def _events(rng, thorough):
         for nr in (0, 1):
             evs.append({"op": "sample", "kind": "surface", "P": Ps, "F": F, "n": 20, "normals": nr, "mode": "uniform", "pcls": "%dfaces%s" % (len(F), "/normals" if nr else ""),
                         "npseed": rng.randrange(10 ** 6)})
+            if nr:
+                evs.append(dict(evs[-1], moved=1, pcls=evs[-1]["pcls"] + "/moved_after_normals_were_stored", npseed=rng.randrange(10 ** 6)))
     for order in (0, 1, 2, 3, 4):          # order 0: a single control point, still only defined on [0, 1]
         for d in (2, 3):
             for _ in range(4 if thorough else 2):
                 Pc = [[rng.randint(-3, 3) for _ in range(d)] for _ in range(order + 1)]
-                for t in ([0, 1], [1, 1], [1, 2], [1, 3], [3, 4], [5, 12], [-1, 4], [5, 4]):
+                for t in ([0, 1], [1, 1], [1, 2], [1, 3], [3, 4], [5, 12], [-1, 4], [5, 4], [1000000001, 1000000000], [-1, 1000000000]):      # the last two: outside by 1e-9
                     evs.append({"op": "bezier_curve", "P": Pc, "t": t})
                 for n in (2, 3, 7):
                     evs.append({"op": "as_polyline", "P": Pc, "n": n})
@@ -172,6 +182,7 @@ def _events(rng, thorough):
         evs.append({"op": "bezier_patch", "N": N, "u": [3, 2], "v": [1, 2]})
         evs.append({"op": "bezier_patch", "N": N, "u": [1, 2], "v": [5, 4]})
         evs.append({"op": "bezier_patch", "N": N, "u": [-1, 2], "v": [1, 2]})
+        evs.append({"op": "bezier_patch", "N": N, "u": [1, 2], "v": [1000000001, 1000000000]})
         for n1, n2 in ((2, 2), (3, 3), (3, 4), (4, 2), (2, 5)) if min(a, b) > 1 else ():
             evs.append({"op": "as_surface", "N": N, "n1": n1, "n2": n2})
     return evs
